@@ -15,6 +15,8 @@ pub enum Ty {
     /// array of anything (may become cyclic); length known
     AnyArr(usize),
     Fun(Vec<Ty>, Box<Ty>),
+    /// "no value": what a function whose body ends in a declaration (or is empty) returns
+    Null,
 }
 
 impl Ty {
@@ -318,6 +320,7 @@ impl<'a> Gen<'a> {
             Ty::Arr(el, len) => self.arr_expr(el, *len, depth, leaf),
             Ty::AnyArr(len) => self.anyarr_expr(*len, depth, leaf),
             Ty::Fun(params, ret) => self.fun_expr(params, ret, depth),
+            Ty::Null => "functie() { }()".to_string(),
         }
     }
 
@@ -709,11 +712,22 @@ impl<'a> Gen<'a> {
             body.push(' ');
         }
         let d = if self.fn_base.len() >= 3 { 0 } else { depth.saturating_sub(1).min(2) };
-        let r = self.expr(ret, d);
-        if self.rng.chance(1, 3) {
-            body.push_str(&format!("antwoord {};", r));
+        if *ret == Ty::Null {
+            // a procedure: the body ends in a declaration (or is empty), compiled to a plain `Return`
+            if n > 0 || self.rng.chance(2, 3) {
+                let t = self.value_ty();
+                let e = self.expr(&t, d);
+                let e = if t == Ty::Int { format!("({} % 1000003)", e) } else { e };
+                let name = self.declare(t, 0);
+                body.push_str(&format!("stel {} = {};", name, e));
+            }
         } else {
-            body.push_str(&format!("{};", r));
+            let r = self.expr(ret, d);
+            if self.rng.chance(1, 3) {
+                body.push_str(&format!("antwoord {};", r));
+            } else {
+                body.push_str(&format!("{};", r));
+            }
         }
         self.loop_depth = saved_loop;
         self.fn_ctx.pop();
@@ -733,7 +747,7 @@ impl<'a> Gen<'a> {
                 params.push(self.value_ty());
             }
         }
-        let ret = self.value_ty();
+        let ret = if self.rng.chance(1, 6) { Ty::Null } else { self.value_ty() };
         (params, ret)
     }
 
@@ -1093,6 +1107,9 @@ impl<'a> Gen<'a> {
 
     fn stmt_return(&mut self, d: usize) -> String {
         let ret = self.fn_ctx.last().unwrap().ret.clone();
+        if ret == Ty::Null {
+            return self.stmt_decl(d);
+        }
         let c = self.expr(&Ty::Bool, 1);
         let e = self.expr(&ret, d.saturating_sub(1));
         format!("als {} {{ antwoord {}; }};", c, e)
@@ -1114,6 +1131,15 @@ impl<'a> Gen<'a> {
         let f = self.rng.pick(&fs).clone();
         let call = self.call_of(&f, d);
         if let Ty::Fun(_, ret) = &f.ty {
+            if **ret == Ty::Null {
+                // the value of the previous statement stays the "last value" across this call
+                let s = self.nonempty_str_lit();
+                return match self.rng.below(3) {
+                    0 => format!("string({}); {};", self.rng.below(1000), call),
+                    1 => format!("[{}, {}]; {};", s, self.float_lit(), call),
+                    _ => format!("{};", call),
+                };
+            }
             match self.rng.below(4) {
                 0 => {
                     // keep the result alive in a variable
